@@ -159,10 +159,30 @@ PFX = ["bytes=", "", "bytes= ", "Bytes=", "bytes=0-", "bytes=-", "bytes=1"]
 CASEPFX = 3
 
 
+DASHLESS_KEY = "range-without-dash-honoured"
+
+
+def _is_dashless(pi, free):
+    """Recorded known finding: 'bytes=N' (digits only, no dash) is honoured like 'bytes=N-'. The existing
+    test suite pins this (web_test test_static_unsatisfiable_range_invalid_start expects 416 for
+    'bytes=26'), so it cannot be repaired without editing the suite."""
+    v = PFX[pi] + free
+    if not v.startswith("bytes="):
+        return False
+    spec = v[len("bytes="):]
+    return len(spec) > 0 and all("0" <= c <= "9" for c in spec)
+
+
+def classify_range(size, head, pi, free):
+    return DASHLESS_KEY if _is_dashless(pi, free) else None
+
+
 def pre_range(size: int, head: bool, pi: int, free: str) -> bool:
     if not (0 <= size <= P.S and 0 <= pi < len(PFX)):
         return False
     if len(free) > (P.L if pi != 1 else P.LW):
+        return False
+    if DASHLESS_KEY in P.exclude and _is_dashless(pi, free):
         return False
     return in_shard(pi + len(PFX) * len(free))
 
@@ -173,6 +193,7 @@ def pre_range(size: int, head: bool, pi: int, free: str) -> bool:
     thorough=dict(S=5, L=4, LW=7, timeout=1400, reach_timeout=120),
     nshards=dict(quick=14, thorough=28),
     reach=["r206", "r416", "ignored_invalid"],
+    classify=classify_range,
     units=["web.StaticFileHandler.get", "web.StaticFileHandler.head", "httputil._parse_request_range",
            "httputil._int_or_none", "httputil._get_content_range", "web.StaticFileHandler.set_headers",
            "web.StaticFileHandler.should_return_304", "web.RequestHandler.check_etag_header",
